@@ -57,12 +57,16 @@ def gen_case(d, family='small', enzymes=None, n_small=(1, 5), ref_kw=None, alt=T
     # pylint: disable=too-many-branches,too-many-locals
     # cds_start_NF / mRNA_end_NF transcripts are part of the linear families (12 % each tag)
     kw = dict(n_genes=(1, 1), max_tx=1, p_nf=0.12)
+    want_plant = family == 'circ' and d.chance(0.35)
     if family == 'circ':
-        kw = dict(n_genes=(1, 1), max_tx=1, p_nf=0.0)
+        # exons of 30 nt or more: circRNAs of a few nucleotides do not exist
+        kw = dict(n_genes=(1, 1), max_tx=1, p_nf=0.0, exon_len=(30, 70))
+        if want_plant:
+            kw.update(p_coding=0.25, p_sec=0.0)
     if family == 'fusion':
         kw = dict(n_genes=(2, 2), max_tx=1, p_nf=0.0)
     if family == 'fuscirc':
-        kw = dict(n_genes=(2, 2), max_tx=1, p_nf=0.0, n_exons=(2, 3))
+        kw = dict(n_genes=(2, 2), max_tx=1, p_nf=0.0, n_exons=(2, 3), exon_len=(20, 70))
     if family in ('as', 'as_nested'):
         kw = dict(n_genes=(1, 1), max_tx=1, p_nf=0.12, n_exons=(2, 4))
     if family == 'multi':
@@ -142,6 +146,16 @@ def gen_case(d, family='small', enzymes=None, n_small=(1, 5), ref_kw=None, alt=T
     elif family == 'circ':
         tid = tids[0]
         records.append(vargen.gen_circ(d, ref, tid))
+        planted = plant_circ_start(d, refd, tid, records[0]) if want_plant else None
+        if planted:
+            # a circRNA ORF that runs round the loop more than once, with records on its
+            # start codon and in the codon in front of it
+            refd, more, residue = planted
+            records += more
+            opts = gen_opts(d, ['trypsin', 'trypsin', 'lysc' if residue == 'K' else 'arg-c'],
+                alt=False, limits=limits, exceptions=exceptions)
+            return dict(family='circ', ref=refd, records=records, opts=opts,
+                planted='circ_start_codon')
         if d.chance(0.6):
             records += vargen.gen_small(d, ref, tid, d.randint(1, 3), spread=25)
     opts = gen_opts(d, enzymes, alt=alt and family in ('small', 'multi'), limits=limits,
@@ -217,6 +231,81 @@ def plant_lookbehind_gain(d, refd, tid):
             seen.add(k)
             uniq.append(r)
     return new, uniq
+
+
+def plant_circ_start(d, refd, tid, circ):
+    """ rewrite six bases of the circRNA loop to [KR]-M, in a frame that has no stop codon
+    for a whole round (three rounds when the loop length is not a multiple of three), so that
+    the ORF that starts at this M comes back to its own start codon. Records: an SNV on one of
+    the three start-codon bases (mostly the first), an SNV in the codon in front that
+    replaces the K/R (the cleavage site in front of M disappears), sometimes a third record
+    nearby. Returns (reference, records) or None. """
+    import copy
+    from vf.model import COMP
+    ref = Ref(refd)
+    t = ref.tx(tid)
+    g = ref.gene_of(tid)
+    idx = ref.tx_genomic(tid)
+    tg = ref.tx_gene(tid)
+    loop_g = [q for a, b in circ['frags'] for q in range(a, b)]     # gene positions
+    n = len(loop_g)
+    if n < 30 or any(q not in tg for q in loop_g) or t.get('secs'):
+        return None
+    pos_tx = {q: i for i, q in enumerate(tg)}
+    for _ in range(40):
+        k = d.randint(3, n - 3)       # loop index of the A of ATG
+        if t.get('cds'):
+            s0, e0 = t['cds']
+            i0 = pos_tx[loop_g[k - 3]]
+            inside = s0 <= i0 < e0 or s0 <= i0 + 5 < e0
+            if inside and ((i0 - s0) % 3 != 0 or i0 < s0 + 3 or i0 + 6 > e0 - 3):
+                continue
+        kr = d.choice(['AAA', 'AAG', 'AGA'])
+        new = copy.deepcopy(refd)
+        ch = list(new['chroms'][g['chrom']])
+
+        def put(li, nt):
+            gp = idx[pos_tx[loop_g[li % n]]]
+            ch[gp] = nt if g['strand'] == 1 else nt.translate(COMP)
+        gseq0 = ref.gene_seq(g['id'])
+        loop = [gseq0[q] for q in loop_g]
+        for j, nt in enumerate(kr + 'ATG'):
+            loop[k - 3 + j] = nt
+            put(k - 3 + j, nt)
+        rounds = 1 if n % 3 == 0 else 3
+        fixed = set(range(k - 3, k + 3))
+        if not t.get('cds'):
+            # non-coding host: take the stop codons out of the frame (T>C at the first base,
+            # or X>C at the third when the first is planted; C never creates a stop)
+            for c in range(k, k + rounds * n, 3):
+                cod = ''.join(loop[(c + j) % n] for j in range(3))
+                if cod in ('TAA', 'TAG', 'TGA'):
+                    j = 0 if (c % n) not in fixed else 2
+                    if (c + j) % n in fixed:
+                        break
+                    loop[(c + j) % n] = 'C'
+                    put(c + j, 'C')
+        new['chroms'][g['chrom']] = ''.join(ch)
+        ref2 = Ref(new)
+        gseq = ref2.gene_seq(g['id'])
+        loop = ''.join(gseq[q] for q in loop_g)
+        unrolled = (loop * (rounds + 1))[k:k + rounds * n + 3]
+        if '*' in translate(unrolled):
+            continue
+        recs = []
+        off = d.choice([0, 0, 0, 1, 2])
+        a_g = loop_g[k + off]
+        recs.append(dict(kind='small', tx=tid, g=a_g, ref=gseq[a_g],
+            alt=d.choice([x for x in 'ACGT' if x != gseq[a_g]])))
+        m_g = loop_g[k - 2]
+        if d.chance(0.8):
+            recs.append(dict(kind='small', tx=tid, g=m_g, ref=gseq[m_g], alt='C'))
+        if d.chance(0.3):
+            recs += [r for r in vargen.gen_small(d, ref2, tid, 1, spread=6,
+                center=pos_tx[loop_g[min(n - 1, k + 6)]], kinds=['snv'])
+                if all(r['g'] != x['g'] for x in recs)]
+        return new, recs, 'R' if kr == 'AGA' else 'K'
+    return None
 
 
 def strategy_for(families, **kw):
@@ -700,6 +789,8 @@ def circ_rare_signature(case, ref:Ref, rec, seq):
       'suffix' - a proper suffix of a realizable product (the product is cut where a record
                  starts instead of at a cleavage site or ORF start)
     returns the signature name or None """
+    if case.get('planted'):
+        return None       # planted geometries are clean on the unchanged tree: no tolerance
     opts = dict(case['opts'], w2f=True)
     p = M.params_of(opts)
     recs = [r for r in case['records'] if r['tx'] == rec['tx']]
@@ -737,12 +828,21 @@ def circ_rare_signature(case, ref:Ref, rec, seq):
     targets = {seq}
     if 'F' in seq:
         targets |= {seq[:i] + 'W' + seq[i + 1:] for i, c in enumerate(seq) if c == 'F'}
+    # the sequence must be a digestion product (same rule, same limits) of a molecule whose
+    # copies differ; a mere stretch of a translation is a digestion-level discrepancy (site
+    # choice, missed-cleavage count) and not this finding
     for copies in itertools.product(loops, repeat=ncopies):
         if len(set(copies)) == 1:
             continue
         full = ''.join(copies)
-        for fr in range(3):
-            pr = translate(full[fr:])
-            if any(t in pr for t in targets):
+        if not any(t in translate(full[fr:]) for fr in range(3) for t in targets):
+            continue
+        for st_ in range(0, len(full) - 2):
+            if full[st_:st_ + 3] != 'ATG':
+                continue
+            prods = M.orf_products(full, st_, p, m_removal=True, drop_open=False, strict=False)
+            if case['opts'].get('w2f'):
+                prods = M.add_w2f(prods, p, False)
+            if seq in prods:
                 return 'mixed'
     return None
